@@ -96,7 +96,7 @@ func (s countingSetter) AddTo(m *stun.Message) error {
 
 func c09(c *core.Ctx) {
 	selfCheckOracles()
-	reps := int(c.N(5, 60))
+	reps := int(c.N(5, 600))
 	// (1) text attributes and the ERROR-CODE reason, lengths 0..limit+300
 	type textSetter struct {
 		name  string
@@ -185,7 +185,7 @@ func c09(c *core.Ctx) {
 		c.Distinct(uint64(i) | 2<<40)
 	})
 	// (4) MessageIntegrity.AddTo with FINGERPRINT at every position of the preceding message
-	c.Section("integrity-after-fingerprint", c.N(300, 20000), func(i int64, r *gen.Rand) {
+	c.Section("integrity-after-fingerprint", c.N(300, 200000), func(i int64, r *gen.Rand) {
 		n := 1 + r.Intn(6)
 		fpAt := -1
 		if !r.Chance(1, 5) {
@@ -213,7 +213,7 @@ func c09(c *core.Ctx) {
 		c.Distinct(uint64(fpAt+1)<<8 | uint64(n) | 3<<40)
 	})
 	// (5) Build stops at and returns the first failing setter's error
-	c.Section("build-first-error", c.N(400, 20000), func(_ int64, r *gen.Rand) {
+	c.Section("build-first-error", c.N(400, 200000), func(_ int64, r *gen.Rand) {
 		c.Eval(1)
 		n := 1 + r.Intn(7)
 		failAt := r.Intn(n + 1) // n: nobody fails
